@@ -199,11 +199,14 @@ class ConcurrentExecutor(ABC, Generic[CallableType, ResultType]):
             "▶️ Executing concurrent operation, items: %d", len(self.executables)
         )
 
-        max_workers = self.max_concurrency or len(self.executables)
-
         self.executables_with_state = [
             ExecutableWithState(executable=exe) for exe in self.executables
         ]
+        if not self.executables:
+            # nothing to run: no branch would ever signal completion (and a pool needs >= 1 worker)
+            return self._create_result()
+
+        max_workers = self.max_concurrency or len(self.executables)
         self._completion_event.clear()
         self._suspend_exception = None
         self._fatal_exception = None
